@@ -111,6 +111,29 @@ func newStdSvc(v stdVariant) (*stdSvc, error) {
 	if v.KeepEnv != "" {
 		os.Setenv("KEEP_NEXT_HOP_ROUTE", v.KeepEnv)
 	}
+	// the backends are up before the proxy starts (it may connect to them eagerly)
+	add := func(e *labEP, err error) *labEP {
+		if err != nil {
+			panic(fmt.Sprintf("verif harness: cannot bind endpoint: %v", err))
+		}
+		s.eps = append(s.eps, e)
+		return e
+	}
+	allListens := append([]labListenCfg{}, cfg.Listens...)
+	for _, m := range cfg.More {
+		allListens = append(allListens, m.Listens...)
+	}
+	for _, l := range allListens {
+		for _, b := range l.Backends {
+			proto, hp, _ := strings.Cut(b, "://")
+			host, port := splitHostPort(hp)
+			if proto == "udp" {
+				add(in.hub.udpEP("backend-udp", host, port))
+			} else {
+				add(in.hub.tcpEP("backend-tcp", host, port))
+			}
+		}
+	}
 	var err error
 	if v.Bin {
 		env := v.BinEnv
@@ -126,13 +149,6 @@ func newStdSvc(v stdVariant) (*stdSvc, error) {
 		return nil, err
 	}
 	s.model = newModel(cfg)
-	add := func(e *labEP, err error) *labEP {
-		if err != nil {
-			panic(fmt.Sprintf("verif harness: cannot bind endpoint: %v", err))
-		}
-		s.eps = append(s.eps, e)
-		return e
-	}
 	for i := 0; i < 4; i++ {
 		s.uas = append(s.uas, add(in.hub.udpEP(fmt.Sprintf("ua%d", i), ip(10+i), 5060)))
 		s.uas2 = append(s.uas2, add(in.hub.udpEP(fmt.Sprintf("ua%d'", i), ip(10+i), 6010)))
@@ -150,21 +166,6 @@ func newStdSvc(v stdVariant) (*stdSvc, error) {
 		d, p int
 	}{{1, 5099}, {2, 5099}, {3, 5099}, {2, 5060}, {3, 5060}, {60, 5062}, {60, 5063}, {60, 5064}} {
 		add(in.hub.udpEP(fmt.Sprintf("nearmiss%d", ap.d), ip(ap.d), ap.p))
-	}
-	allListens := append([]labListenCfg{}, cfg.Listens...)
-	for _, m := range cfg.More {
-		allListens = append(allListens, m.Listens...)
-	}
-	for _, l := range allListens {
-		for _, b := range l.Backends {
-			proto, hp, _ := strings.Cut(b, "://")
-			host, port := splitHostPort(hp)
-			if proto == "udp" {
-				add(in.hub.udpEP("backend-udp", host, port))
-			} else {
-				add(in.hub.tcpEP("backend-tcp", host, port))
-			}
-		}
 	}
 	return s, nil
 }
